@@ -22,7 +22,7 @@ import time
 from translate import c04_fmt
 from vlib import core
 
-MODELLED = ["xyz", "rawxyz", "pdffit", "discus"]
+MODELLED = ["xyz", "rawxyz", "pdffit", "discus", "pdb", "xcfg", "cif"]
 TARGETS = ["Model/C04_Wire.vo", "Props/C04.vo", "Props/C04_Pinned.vo"]
 
 _model = None
@@ -81,6 +81,25 @@ def geometry_hypotheses(fmt, s):
             t.Bisoequiv = b1
             if "%.4f" % t.Bisoequiv != "%.4f" % b1:
                 bad.append("Bisoequiv of a grid value leaves its grid point: %r -> %r" % (b1, t.Bisoequiv))
+    if fmt == "pdb":
+        # s is the RE-READ structure: Cartesian -> fractional -> Cartesian, B -> Uiso -> B and k -> k*1e-4 stay on the printed grid
+        for a in s:
+            c = a.xyz_cartn
+            for v in c:
+                g = float("%.3f" % v)
+                if abs(g - v) > 1e-9 * max(1.0, abs(v)):
+                    bad.append("re-read Cartesian coordinate %r is not on the 3-decimal grid" % float(v))
+            if a.anisotropy:
+                for x in numpy.ravel(a.U):
+                    k = numpy.around(1e4 * x)
+                    if abs(1e4 * x - k) > 1e-6:
+                        bad.append("re-read U component %r is not k*1e-4" % float(x))
+            else:
+                if s.lattice.isanisotropic(a.U):
+                    bad.append("re-read isotropic atom classified anisotropic")
+                b = a.Bisoequiv
+                if "%.2f" % b != "%.2f" % float("%.2f" % b) or abs(float("%.2f" % b) - b) > 1e-9 * max(1.0, abs(b)):
+                    bad.append("re-read B %r is not on the 2-decimal grid" % b)
     return bad
 
 
@@ -115,8 +134,16 @@ def run_case(task):
     # ---- correspondence with the Coq model
     if fmt in MODELLED and do_model:
         from vlib import c04_model as M
-        view = M.VIEWS[fmt](s)
-        if all(M.ascii_ok(x) for x in view):
+        import re as _re
+        date = None
+        if fmt == "cif":
+            try:
+                with G.quiet():
+                    date = _re.search(r"_audit_creation_date\s+(\S+)", s.writeStr("cif")).group(1)
+            except Exception:   # noqa: BLE001
+                date = None
+        view = M.view_cif(s, date) if fmt == "cif" else M.VIEWS[fmt](s)
+        if view is not None and all(M.ascii_ok(x) for x in view) and not (fmt == "pdb" and M.pdb_has_sigmas(s)):
             m = _get_model()
             real = None
             try:
@@ -136,7 +163,7 @@ def run_case(task):
                     rv = None
                     try:
                         s1 = G.read_str(real, fmt)
-                        rv = M.RAW_VIEWS.get(fmt, M.VIEWS[fmt])(s1)
+                        rv = True if fmt in M.READ_DIFF else M.RAW_VIEWS.get(fmt, M.VIEWS[fmt])(s1)
                     except Exception as e:   # noqa: BLE001
                         rv = None
                     mr = m.call(fmt, "read", [real])
@@ -145,9 +172,14 @@ def run_case(task):
                                                                                        "rejects" if rv is None else "accepts"),
                                             G.describe(s), {"text": real[:400]}))
                     elif mr is not None:
-                        d = M.tokens_equal(fmt, mr, rv)
+                        d = M.READ_DIFF[fmt](mr, s1) if fmt in M.READ_DIFF else M.tokens_equal(fmt, mr, rv)
                         if d:
                             out["corr"].append(("read", d, G.describe(s), {"text": real[:400]}))
+                    if fmt == "cif" and mr is not None:
+                        mt = m.call("cif", "tokens", [real])
+                        d = M.cif_tokens_diff(mt, real) if mt else "model cannot tokenise the written text"
+                        if d:
+                            out["corr"].append(("tokens", d, G.describe(s), {"text": real[:400]}))
                     rp = m.call(fmt, "repr", view)
                     if rp == ["1"]:
                         mc = m.call(fmt, "canon", view)
@@ -156,6 +188,18 @@ def run_case(task):
                     if rv is not None:
                         for msg in geometry_hypotheses(fmt, s1):
                             out["geo"].append(msg)
+                        # the re-read structure as an input of the writer model (stored auxiliaries, flipped flags ...)
+                        v1 = M.view_cif(s1, date) if fmt == "cif" else M.VIEWS[fmt](s1)
+                        if v1 is not None and all(M.ascii_ok(x) for x in v1):
+                            w1 = m.call(fmt, "write", v1)
+                            try:
+                                with G.quiet():
+                                    real1 = s1.writeStr(fmt)
+                            except Exception:   # noqa: BLE001
+                                real1 = None
+                            if w1 is not None and (real1 is None or w1[0] != real1):
+                                out["corr"].append(("write", "model text differs from writeStr on the re-read structure", G.describe(s),
+                                                    {"model": w1[0][:400], "impl": (real1 or "<exception>")[:400]}))
                 if out["sample"] is None and real is not None and len(s) <= 2:
                     out["sample"] = {"format": fmt, "text": real[:300]}
     return out
@@ -298,7 +342,7 @@ def run(ctx, only=None):
                 seen_keys[v["key"]] = v
             seen_keys[v["key"]]["count"] = seen_keys[v["key"]].get("count", 0) + 1
     for fmt in MODELLED:
-        for part in ("write", "read", "canon"):
+        for part in ("write", "read", "tokens" if fmt == "cif" else "canon"):
             bad = corr.get((fmt, part), [])
             detail = ""
             if bad:
